@@ -487,8 +487,14 @@ pub fn run_real(env: &RealEnv, w: &World, inv: &RInv) -> ROut {
     // own process group, so that stragglers can be reaped
     unsafe {
         use std::os::unix::process::CommandExt;
-        cmd.pre_exec(|| {
+        let cap = !env.n2.to_string_lossy().contains("n2-asan") && !env.n2.to_string_lossy().contains("n2-tsan") && env.wrapper.is_empty();
+        cmd.pre_exec(move || {
             libc::setpgid(0, 0);
+            if cap {
+                // a runaway allocation in n2 must not take the machine down
+                let lim = libc::rlimit { rlim_cur: 6 << 30, rlim_max: 6 << 30 };
+                libc::setrlimit(libc::RLIMIT_AS, &lim);
+            }
             Ok(())
         });
     }
